@@ -2,6 +2,7 @@
 import multiprocessing as mp
 import random
 
+from vf import engine_p
 from vf import execharness as H
 from vf.report import MachineryDefect, Run
 
@@ -243,6 +244,7 @@ def check(tier, seed):
     run.cov["bounded_functions"].append({"functions": ["process_graphql_query", "execute", "Executor.resolve_field", "BlockingExecutor.resolve_field",
                                                        "MultiInstrumentation.*", "apply_middlewares", "Executor.field_resolver"], "bound": "%d executions" % n})
     run.sample({"request": REQUESTS[0][0], "trace": "query+ parsing+ parsing- validation+ validation- execution+ field(me)+ ... execution- query-"})
-    run.assume("no deductive obligation yet (ghost-trace contracts over callbacks are bounded here); callbacks are atomic")
-    return run.finish("other", "bounded stand-in: hook / middleware trace contracts evaluated on every enumerated request outcome, runtime and completion order",
+    run.assume("callbacks are atomic in the stand-in; middleware nesting and ResolutionContext._resolver_cache are bounded only")
+    engine_p.run(run, 'C16')
+    return run.finish("other", "trace contracts over every syntactic path of the real function (Engine P, unbounded in the inputs, values abstracted) + bounded stand-in: hook / middleware trace contracts evaluated on every enumerated request outcome, runtime and completion order",
                       checker_cmd="./check C16 --tier %s" % tier)
